@@ -632,7 +632,10 @@ where
                     let is_active = if flush_result.is_some() {
                         trace!("Flush completed.");
                         flushed = true;
-                        if registered.is_empty() && awaiting_synced.is_empty() {
+                        if registered.is_empty()
+                            && awaiting_synced.is_empty()
+                            && awaiting_linked.is_empty()
+                        {
                             trace!("Number of subscribers dropped to 0.");
                             task_state.set(Some(make_timeout()));
                             false
@@ -688,7 +691,7 @@ where
                         } else {
                             sync_only(&mut awaiting_synced, &mut registered).await;
                         }
-                        if registered.is_empty() {
+                        if registered.is_empty() && awaiting_linked.is_empty() {
                             trace!("Number of subscribers dropped to 0.");
                             task_state.set(Some(make_timeout()));
                         }
@@ -715,8 +718,10 @@ where
                             send_current(&mut awaiting_synced, &current).await;
                         }
                         if registered.is_empty() && awaiting_synced.is_empty() {
-                            trace!("Number of subscribers dropped to 0.");
-                            task_state.set(Some(make_timeout()));
+                            if awaiting_linked.is_empty() {
+                                trace!("Number of subscribers dropped to 0.");
+                                task_state.set(Some(make_timeout()));
+                            }
                             flushed = true;
                         } else {
                             flushed = false;
